@@ -769,41 +769,44 @@ func (self Node) Gets(keys []PathNode, opts *Options) (err error) {
 		return errValue(meta.ErrRead, "", it.Err)
 	}
 	need := len(keys)
+	// NOTICE: read ONE pair per iteration and compare it with every wanted key
+	// (advancing the iterator once per wanted key skips pairs and runs over the end of the map)
+	kind := keys[0].Path.Type()
 	for count := 0; it.HasNext() && count < need; {
-		for j, id := range keys {
-			if id.Path.Type() == PathStrKey {
-				exp := id.Path.str()
-				_, s, v, e := it.NextStr(opts.UseNativeSkip)
-				if it.Err != nil {
-					return errValue(meta.ErrRead, "", it.Err)
-				}
-				if exp == s {
-					p := &keys[j]
-					count += 1
-					p.Node = self.slice(v, e, et)
-				}
-			} else if id.Path.Type() == PathIntKey {
-				exp := id.Path.int()
-				_, s, v, e := it.NextInt(opts.UseNativeSkip)
-				if it.Err != nil {
-					return errValue(meta.ErrRead, "", it.Err)
-				}
-				if exp == s {
-					p := &keys[j]
-					count += 1
-					p.Node = self.slice(v, e, et)
-				}
-			} else {
-				exp := id.Path.bin()
-				_, s, v, e := it.NextBin(opts.UseNativeSkip)
-				if it.Err != nil {
-					return errValue(meta.ErrRead, "", it.Err)
-				}
-				if bytes.Equal(exp, s) {
-					p := &keys[j]
-					count += 1
-					p.Node = self.slice(v, e, et)
-				}
+		var (
+			ks   string
+			ki   int
+			kb   []byte
+			v, e int
+		)
+		switch kind {
+		case PathStrKey:
+			_, ks, v, e = it.NextStr(opts.UseNativeSkip)
+		case PathIntKey:
+			_, ki, v, e = it.NextInt(opts.UseNativeSkip)
+		default:
+			_, kb, v, e = it.NextBin(opts.UseNativeSkip)
+		}
+		if it.Err != nil {
+			return errValue(meta.ErrRead, "", it.Err)
+		}
+		for j := range keys {
+			id := keys[j].Path
+			if id.Type() != kind {
+				continue
+			}
+			match := false
+			switch kind {
+			case PathStrKey:
+				match = id.str() == ks
+			case PathIntKey:
+				match = id.int() == ki
+			default:
+				match = bytes.Equal(id.bin(), kb)
+			}
+			if match {
+				count += 1
+				keys[j].Node = self.slice(v, e, et)
 			}
 		}
 	}
